@@ -116,6 +116,9 @@ type vC18Logger struct {
 func (l *vC18Logger) Errorf(format string, v ...interface{}) {
 	if strings.HasPrefix(format, "Failed to publish activity event") {
 		msg := fmt.Sprintf(format, v...)
+		if os.Getenv("VERIF_DEBUG") != "" {
+			fmt.Fprintln(os.Stderr, "C18 dispatcher:", msg)
+		}
 		if strings.Contains(msg, "failed to update Raft") {
 			atomic.AddInt64(l.recFails, 1)
 		} else {
@@ -317,29 +320,13 @@ func (r *vC18Run) stop(n *vC18Node) {
 	}
 	srv := n.srv
 	done := make(chan struct{})
-	if n.gate.isParked() {
-		// the record must be lost: shut the server down first, then let the
-		// dispatcher run into the stopped Raft node
-		go func() { srv.Stop(); close(done) }()
-		vC18Wait("shutdown flag", srv.isShutdown)
-		n.gate.setOpen(true)
-		n.gate.releaseOne()
-	} else {
-		n.gate.setOpen(true)
-		go func() { srv.Stop(); close(done) }()
-		// a publish that was in flight may still arrive at the gate
-		go func() {
-			for {
-				select {
-				case <-done:
-					return
-				default:
-					n.gate.releaseOne()
-					time.Sleep(time.Millisecond)
-				}
-			}
-		}()
-	}
+	// The gate stays closed until the server is shut down: a dispatcher that is
+	// parked (or arrives) between publish and record then runs into the stopped
+	// Raft node - the record is lost, as in a crash at that point.
+	go func() { srv.Stop(); close(done) }()
+	vC18Wait("shutdown flag", srv.isShutdown)
+	n.gate.setOpen(true)
+	n.gate.releaseOne()
 	select {
 	case <-done:
 	case <-time.After(vC18Deadline):
@@ -536,6 +523,13 @@ func (r *vC18Run) step(step map[string]interface{}) (ev vC18Event) {
 			r.start(n)
 		}
 	case "Elect":
+		// single server: it elects itself; several servers: see TakeOver
+		n := r.node(step)
+		focus = n
+		vC18Wait("raft leadership of "+n.id, func() bool {
+			return n.srv != nil && n.srv.IsRunning() && n.srv.getRaft() != nil && n.srv.getRaft().State() == raft.Leader
+		})
+	case "BecomeLeader":
 		n := r.node(step)
 		focus = n
 		vC18Wait("metadata leadership of "+n.id, func() bool {
@@ -619,6 +613,8 @@ func (r *vC18Run) step(step map[string]interface{}) (ev vC18Event) {
 			r.readRaftLog(n)
 			r.snap = int64(len(r.rlog))
 		}
+	case "Sleep":
+		time.Sleep(time.Duration(vIntDef(step, "ms", 100)) * time.Millisecond)
 	case "Settle":
 		// release the dispatcher until nothing is left to publish (not a model step)
 		n := r.controller()
@@ -697,9 +693,12 @@ func TestVerifC18(t *testing.T) {
 			}
 			open := vC18Event{T: b.ID, A: "Open", Args: map[string]interface{}{}, St: r.state(nil)}
 			tw.Emit(open)
+			tw.w.Flush()
 			for _, st := range b.Steps {
 				tw.Emit(r.step(st))
+				tw.w.Flush()
 			}
+			tw.Emit(map[string]interface{}{"t": b.ID, "a": "Completed"})
 		}()
 		tw.w.Flush()
 		if timeouts >= 3 {
